@@ -341,11 +341,31 @@ impl FarmWorld {
         }
     }
 
-    fn gen_factors(&self, rng: &mut Rng) -> String {
+    fn gen_factors(&mut self, rng: &mut Rng) -> String {
+        let snap = self.snap();
+        self.gen_factors_at(rng, &snap)
+    }
+
+    /// factors with the minimums sometimes placed exactly at / just above a user's energy or position
+    fn gen_factors_at(&self, rng: &mut Rng, s: &Snap) -> String {
         let max_f = *rng.pick(&[1u64, 2, 10, 10, 100, 0]);
         let (c_e, c_f) = match rng.below(8) { 0 => (1, 0), 1 => (0, 1), 2 => (3, 2), 3 => (3, 2), 4 => (1, 1), 5 => (rng.range(0, 9), rng.range(1, 9)), 6 => (7, 3), _ => (2, 5) };
         let min_e = *rng.pick(&[1u64, 1, 1, 1, 10, 1000, 1, 0]);
         let min_f = *rng.pick(&[1u64, 1, 1, 1, 5, 1000, 1, 0]);
+        let mut min_e = BigUint::from(min_e);
+        let mut min_f = BigUint::from(min_f);
+        if rng.chance(1, 4) {
+            let u = &s.users[rng.below(s.users.len() as u64) as usize];
+            if !u.total.is_zero() {
+                min_f = &u.total + BigUint::from(rng.below(2));
+            }
+            if let Some((_, e)) = &u.progress {
+                let p = e.positive();
+                if !p.is_zero() {
+                    min_e = p + BigUint::from(rng.below(2));
+                }
+            }
+        }
         let (c_e, c_f) = if rng.chance(1, 60) { (0, 0) } else { (c_e, c_f) };
         let c = if rng.chance(1, 25) { 1 } else { OWNER_ID };
         format!("setFactors {} {} {} {} {} {}", c, max_f, c_e, c_f, min_e, min_f)
